@@ -121,6 +121,9 @@ pub fn sentinel_expr(recvs: &[Recv], ty: &Ty, tag: Tag, k: usize) -> String {
 }
 
 pub fn field_full_ty(recvs: &[Recv], f: &Field) -> String {
+    if f.foreign {
+        return format!("Foreign<{}>", rust_ty(recvs, &f.ty));
+    }
     if f.multiple {
         format!("Vec<{}>", rust_ty(recvs, &f.ty))
     } else {
@@ -145,6 +148,9 @@ pub fn field_sentinel(recvs: &[Recv], f: &Field, tag: Tag, k: usize) -> Value {
 }
 
 pub fn field_sentinel_expr(recvs: &[Recv], f: &Field, tag: Tag, k: usize) -> String {
+    if f.foreign {
+        return format!("Foreign({})", sentinel_expr(recvs, &f.ty, tag, k));
+    }
     if f.multiple {
         format!("vec![{}]", sentinel_expr(recvs, &f.ty, tag, k))
     } else {
